@@ -394,6 +394,76 @@ def Problem.move (m : Mo) (pp : Problem) : Res Problem :=
 
 def moveProblems (m : Mo) (l : List Problem) : Res (List Problem) := mapR (Problem.move m) l
 
+/-! ### a planning-problem set as the OBJECTS it is made of
+
+`moveProblems` speaks about values. `GoalRegion.translate_rotate` works IN PLACE, so which goal-region OBJECT a problem holds
+matters: `goals` lists the goal-region objects of a set (an index is an identity), every problem holds its initial state and the
+index of its goal-region object.  Two problems may hold the same index (ONE object shared: cooperative problems with one goal);
+two indices may hold equal values (twins: `GoalRegion.__eq__` / `__hash__` go by value, identity does not). -/
+
+structure ProblemSet where
+  goals : List (List State)
+  problems : List (State × Nat)
+  deriving Repr
+
+/-- the states of the goal-region object `r`. -/
+def goalAt (goals : List (List State)) (r : Nat) : List State := (goals[r]?).getD []
+
+/-- what the public accessors show: per problem its initial state and the states of the goal region it holds. -/
+def ProblemSet.view (ps : ProblemSet) : List Problem := ps.problems.map fun p => ⟨p.1, goalAt ps.goals p.2⟩
+
+/-- The loop of `PlanningProblemSet.translate_rotate` (planning_problem.py:187-201, after the repair b4f94f9): `done` are the
+    goal-region objects moved so far; a problem whose goal-region object is among them only gets its initial state replaced,
+    every other problem is moved by `PlanningProblem.translate_rotate` (initial state, then its goal region in place). -/
+def ProblemSet.loop (m : Mo) : List (State × Nat) → List (List State) → List Nat → Res (List (State × Nat) × List (List State))
+  | [], goals, _ => .ok ([], goals)
+  | p :: rest, goals, done =>
+    match State.move m p.1 with
+    | .error e => .error e
+    | .ok i' =>
+      if p.2 ∈ done then
+        match ProblemSet.loop m rest goals done with
+        | .error e => .error e
+        | .ok (ps, g) => .ok ((i', p.2) :: ps, g)
+      else
+        match moveStates m (goalAt goals p.2) with
+        | .error e => .error e
+        | .ok g' =>
+          match ProblemSet.loop m rest (goals.set p.2 g') (p.2 :: done) with
+          | .error e => .error e
+          | .ok (ps, g) => .ok ((i', p.2) :: ps, g)
+
+def ProblemSet.move (m : Mo) (ps : ProblemSet) : Res ProblemSet :=
+  match ProblemSet.loop m ps.problems ps.goals [] with
+  | .error e => .error e
+  | .ok (p, g) => .ok ⟨g, p⟩
+
+/-- The loop BEFORE the repair: every problem moves the goal-region object it holds (`PlanningProblem.translate_rotate` for
+    each), so an object held by k problems is moved k times. Kept for the refuting witness `C05_witness_shared_goal_moved_twice`. -/
+def ProblemSet.loopEach (m : Mo) : List (State × Nat) → List (List State) → Res (List (State × Nat) × List (List State))
+  | [], goals => .ok ([], goals)
+  | p :: rest, goals =>
+    match State.move m p.1 with
+    | .error e => .error e
+    | .ok i' =>
+      match moveStates m (goalAt goals p.2) with
+      | .error e => .error e
+      | .ok g' =>
+        match ProblemSet.loopEach m rest (goals.set p.2 g') with
+        | .error e => .error e
+        | .ok (ps, g) => .ok ((i', p.2) :: ps, g)
+
+/-- A loop that moves only the goal-region objects listed in `pick` (each once) and every initial state: what is left when
+    goal regions are collected in a container that lets some of them drop out (e.g. a `set`, in which a twin - equal by value -
+    collapses with its original). Kept for the refuting witness `C05_witness_twin_goal_left`. -/
+def ProblemSet.movePicked (m : Mo) (pick : List Nat) (ps : ProblemSet) : Res ProblemSet :=
+  match mapR (State.move m) (ps.problems.map (·.1)) with
+  | .error e => .error e
+  | .ok is =>
+    match mapR (fun (x : List State × Nat) => if x.2 ∈ pick then moveStates m x.1 else .ok x.1) ps.goals.zipIdx with
+    | .error e => .error e
+    | .ok gs => .ok ⟨gs, is.zip (ps.problems.map (·.2))⟩
+
 /-! ### which Python attributes the records above stand for (compared with the table extracted from the source in CRProps/T05) -/
 
 /-- per class with an in-place `translate_rotate`: the world-frame attributes (Python names without leading `_`) the model
